@@ -346,3 +346,14 @@ def was_unspent_flag(ctx, rid):
     run.instance(rid, {"fn": "map_wallet_outputs", "obligation": "the 'was unspent' flag handed to the revert detection is (status == Unspent)"}, held=h)
     if not h:
         run.finding(Finding(rid, mw.id, "the 'was unspent' flag of the refresh map is not (status == Unspent)", site=mw.loc()))
+
+
+def fresh_random(f, o):
+    """operand o is (only) the result of rand::Rng::gen() on thread_rng()"""
+    pn = vf.producers(f, o)
+    gens = [y for y in pn if y[0] == "call" and y[1] == "rand::Rng::gen"]
+    if len(gens) != 1 or len(pn) != 1:
+        return False
+    gt = f.bbs[gens[0][2]]["t"]
+    pg = vf.producers(f, gt["a"][0])
+    return bool(pg) and all(y[0] == "call" and y[1] == "rand::rngs::thread::thread_rng" for y in pg)
